@@ -29,8 +29,17 @@ func (g *G) Model(o ModelOpts) *Val {
 		ns = 1 + g.R.Intn(3)
 	}
 	g.Services = nil
+	// service names are user-chosen keys: a third of the models use legal names containing dots
+	style := g.R.Intn(3)
 	for i := 0; i < ns; i++ {
-		g.Services = append(g.Services, fmt.Sprintf("svc-%c", 'a'+i))
+		switch {
+		case style == 0 && i%2 == 0:
+			g.Services = append(g.Services, fmt.Sprintf("svc.%c", 'a'+i))
+		case style == 0:
+			g.Services = append(g.Services, fmt.Sprintf("eu.west.svc-%c", 'a'+i))
+		default:
+			g.Services = append(g.Services, fmt.Sprintf("svc-%c", 'a'+i))
+		}
 	}
 	count := func(max int) int {
 		n := g.R.Intn(max + 1)
